@@ -733,6 +733,16 @@ def nonempty_by_construction(prog, f, cont_render, at_node):
                     and uncast(R.render(f.nodes[x]['obj'])) == cont_render]
         th = pushes(sn['then'])
         el = pushes(sn['else'])
+        # the else-branch may fill the container with std::generate_n(std::back_inserter(C), N, ...) / C.resize(N) / C.assign(N, ..)
+        if th and not el:
+            for x in f.descendants(sn['else']):
+                c_ = f.nodes[x]
+                if c_['k'] == 'CallExpr' and c_.get('callee', {}).get('qname') == 'std::generate_n' and len(f.call_args(c_)) == 3:
+                    d0 = f.nodes[f.strip(f.call_args(c_)[0], 'all')]
+                    if d0['k'] == 'CallExpr' and d0.get('callee', {}).get('qname') == 'std::back_inserter' and d0.get('args') and uncast(R.render(d0['args'][0])) == cont_render and \
+                            uncast(R.render(f.call_args(c_)[1])) == N and not shrinks_between(prog, f, cont_render, c_['id'], at_node):
+                        if not (enclosing_fors(f, th[0]['id']) and any(y in f.descendants(sn['then']) for y in enclosing_fors(f, th[0]['id']))):
+                            return 'scalar branch pushes one element; matrix branch appends %s != 0 generated elements' % N
         if not th or not el:
             continue
         # then-branch: unconditional push; else-branch: loop i in [0, N) pushing each iteration
@@ -813,7 +823,10 @@ def overrun_evidence(prog, s, ctx):
                     return 'the index %s is computed from `%s`, read from the file by %s, and nothing compares it with %s%s' % (
                         I, m_['decl']['name'], inn['callee']['name'], size, ' (for the value 0, abs(%s) - 1 wraps to SIZE_MAX)' % m_['decl']['name'] if 'abs(' in I else '')
     public = (f.rec.get('access') in ('public', None, 'none')) and not f.rec.get('internal') and '(anonymous namespace)' not in f.qname
-    if In['k'] == 'DeclRefExpr' and In['decl'].get('dk') == 'param' and public:
+    # (not for continuation parameters: a defaulted parameter of a function that calls itself is set by the function, not by its users)
+    pidx_ = [p_['id'] for p_ in f.params].index(In['decl']['id']) if In['k'] == 'DeclRefExpr' and In['decl'].get('dk') == 'param' and In['decl'].get('id') in [p_['id'] for p_ in f.params] else None
+    continuation = pidx_ is not None and (f.params[pidx_].get('hasdefault') or any(c_['callee']['usr'] == f.usr for c_ in f.calls()))
+    if In['k'] == 'DeclRefExpr' and In['decl'].get('dk') == 'param' and public and not continuation:
         if not any(I in (l, r) for l, op, r, _ in facts):
             return 'the index is the unchecked parameter `%s` of a public function: every value a caller passes reaches the subscript' % In['decl'].get('name')
     return None
